@@ -482,8 +482,14 @@ Definition run_case (w : world) (fuel : nat) (h : list op) :=
   let '(vs, st) := run_hist w fuel h init in
   (vs, rev (s_log st), map (fresh_result w fuel) h, scrubbed_results w fuel h init, s_calls st).
 
+(** the fault-free run, then every fault set of [fls] that fires at all (some index below the
+    number of resolver calls of the fault-free run), each tagged with its fault set *)
 Definition run_variants (w : world) (fuel : nat) (h : list op) (fls : list (list N)) :=
-  map (fun fl => run_case (with_faults w fl) fuel h) fls.
+  let base := run_case (with_faults w []) fuel h in
+  let n := snd base in
+  ([], base) ::
+  map (fun fl => (fl, run_case (with_faults w fl) fuel h))
+      (filter (fun fl => existsb (fun k => k <? n) fl) fls).
 
 (* ------------------------------------------------------------------ log observers (SPEC side) *)
 Definition is_ok_load (c : path) (ev : event) : bool :=
